@@ -21,7 +21,7 @@ from pvl.decoder import PVLDecoder, ODLDecoder, PDSLabelDecoder, OmniDecoder
 from pvl.parser import PVLParser, ODLParser, OmniParser
 from pvl.encoder import PVLEncoder, ODLEncoder, PDSLabelEncoder, ISISEncoder
 
-from props import c05, c08, c13
+from props import c05, c08, c13, c17
 from vlib import gen_text as gt
 from vlib import gen_values as gv
 from vlib import normalise as nm
@@ -63,6 +63,9 @@ FIXED_TEXTS = [
     "a =\nb = 2\nc = (1, 2\n",
     "x = \"dash-\n  cont\"\n\nq =\nGROUP = g\n y = 1\nEND\n",
     "\n\nk =\nj = \x01\n",
+    "a = word\nb = foo*/\n",
+    "a = /*never_closed",
+    "a = b#c\n",
 ]
 
 VALIDATE_FRESH = {
@@ -201,8 +204,13 @@ def texts():
         st.sampled_from(["k =\n", "\n\nk =\nj = 1\n", "a =\nb =\n"]),
         st.sampled_from(["c = (1, 2\n", "GROUP = g\n d = 1\n", "e = \x01\n", "f = 1 = 2",
                          "g = {1\n", "END_GROUP\n", "h = \"open\n"])).map("".join)
+    # two statements whose values are single lexemes of every class (bare words the
+    # decoder takes or refuses, numbers, dates, quoted strings, keywords)
+    lexemes = st.tuples(st.sampled_from(c17.CURATED), st.sampled_from(c17.CURATED)).map(
+        lambda t: f"a = {t[0]}\nb = {t[1]}\n")
     return st.one_of(st.sampled_from(FIXED_TEXTS), st.sampled_from(FIXED_TEXTS), gen,
-                     gaps, faulted("PVL"), faulted("default"), repaired_then_failing)
+                     gaps, faulted("PVL"), faulted("default"), repaired_then_failing,
+                     lexemes)
 
 
 def specs(enc):
@@ -225,7 +233,7 @@ def calls():
                   st.sampled_from(["PVL", "ODL", "PDS3", "ISIS", "default"]),
                   st.sampled_from(["1", "1.5", "NULL", "'q'", "abc", "2001-01-01",
                                    "12:00:60", "2#101#", "a b", "", "=", "16#FF#",
-                                   "12:00+07", "inf"])),
+                                   "12:00+07", "inf"] + c17.CURATED)),
     )
 
 
@@ -270,9 +278,11 @@ def random_histories(acc, n, seed):
     body()
 
 
-def fixed_histories(acc):
+def fixed_histories(acc, part=None):
     """Every fixed text after every other fixed text on each parser variant."""
     for v in list(PARSERS):
+        if part not in (None, v):
+            continue
         for t1 in FIXED_TEXTS:
             for t2 in FIXED_TEXTS:
                 hist = [("parse", v, t1), ("parse", v, t2), ("parse", v, t1)]
@@ -281,6 +291,8 @@ def fixed_histories(acc):
                 if r is not None:
                     acc.fail(r[0], dict(history=[list(c) for c in hist]), r[1])
     for dn in VALIDATE_FRESH:
+        if part not in (None, "v-" + dn):
+            continue
         for t1 in FIXED_TEXTS:
             for t2 in FIXED_TEXTS:
                 hist = [("vparse", dn, t1), ("vparse", dn, t2)]
@@ -291,9 +303,10 @@ def fixed_histories(acc):
 
 
 def shards(tier, seed):
-    n = 60 if tier == "quick" else 1500
+    n = 110 if tier == "quick" else 1500
     out = [("random_histories", dict(n=n, seed=seed * 1000 + j)) for j in range(16)]
-    out.append(("fixed_histories", {}))
+    out = [("fixed_histories", dict(part=p))
+           for p in list(PARSERS) + ["v-" + dn for dn in VALIDATE_FRESH]] + out
     return out
 
 
